@@ -40,10 +40,15 @@ func registerTimeIntrinsics() {
 		x := fr.x
 		sec, nsec := a[0].(*Term), a[1].(*Term)
 		inRange := x.f.Bin(OpUlt, nsec, x.f.Const(64, 1000000000))
-		if !x.decide(fr, inRange) {
-			abortf("time.Unix with nsec outside [0,1e9): normalisation not modelled")
+		if inRange.IsConst() || x.s.CheckWith(x.f.Not(inRange)) == Unsat {
+			if !x.decide(fr, inRange) {
+				abortf("time.Unix: nsec constant out of range")
+			}
+			return x.mkTime(sec, nsec)
 		}
-		return x.mkTime(sec, nsec)
+		// not provably normalised: the normalised pair is an uninterpreted function of the inputs
+		ns := x.f.Bin(OpURem, x.f.UF("time_norm_ns", 64, sec, nsec), x.f.Const(64, 1000000000))
+		return x.mkTime(x.f.UF("time_norm_s", 64, sec, nsec), ns)
 	}
 	in["(time.Time).Unix"] = func(fr *frame, a []Value) Value { s, _ := timeParts(a[0]); return s }
 	in["(time.Time).Nanosecond"] = func(fr *frame, a []Value) Value { _, n := timeParts(a[0]); return n }
